@@ -14,7 +14,7 @@ import svcbench
 import svcref
 
 ID = 'C12'
-EXTRACT = ['configsvc']
+EXTRACT = ['configsvc', 'tasks']
 LEAN_TARGETS = ['DeepModel.Props.C12']
 AUDIT = 'DeepModel/Audit/C12.lean'
 DRIVER = 'DeepModel/Driver/C12.lean'
@@ -28,6 +28,11 @@ RULE = ('[line-granular preemption, oracle only: 6 victim/intruder pairs (poll a
         'split into their four regions with other ops in between (any number of tasks parked in front of the lock), ~12% of cases with a second task started '
         'while the lock is held (must block); usually drained at the end in a random order. Timer cases (1 in 10; failing polls raise a connection error with a message, one without arguments, KeyError(), a grpc.RpcError subclass without arguments, an exception whose str() raises, an OSError, or the stub returns garbage): '
         'LongPoll.start() with POLL_TIMER 0.01 as float or as text, script of 2..6 polls with failures first. '
+        'Poll-thread cases (1 in 9): the real RepeatedTimer thread running the real LongPoll.poll with its Event replaced by a gate, so '
+        'each pass of the loop is one scheduled tick — 3..9 events: ticks whose stub answers UPDATE / NO_CHANGE / an unknown type / an '
+        'unconvertible payload, hands back garbage, raises one of 6 Exception kinds or (25%) a BaseException (custom, '
+        'KeyboardInterrupt, SystemExit); (25%) the real TaskHandler.flush() somewhere; (30%) the real LongPoll.shutdown() '
+        'followed by more ticks. '
         'Non-trivial = two or more updates/registrations were in flight together and ran in an order other than '
         'submission order, or a poll failed/was malformed after a configuration was installed. Distinct = distinct '
         'canonical JSON of the case.')
@@ -35,7 +40,11 @@ TRUSTED = ['threading.Lock / Thread / Event and concurrent.futures.Future behave
            'the task pool runs each accepted task exactly once (C09); any order, any number of workers',
            'protobuf runtime: a constructed PollResponse reads back the fields it was given',
            'uuid4 handles are unique; build_trigger results are carried as opaque (path, line, tag)']
-ASSUMPTIONS = ['an update_listeners task is three atomic regions: lock + read of the polled config; evaluation of '
+ASSUMPTIONS = ['poll-thread cases: `RepeatedTimer.event` is the Event the loop waits on (gated by the bench); `_time` and '
+               '`Event.wait` do not raise (interval coerced, not zero); an UPDATE answered after TaskHandler.flush() closed '
+               'the handler is outside the statement (the model says it kills the thread: c12_update_after_flush_kills_timer); '
+               'the oracle also holds LongPoll.shutdown() to its docstring: the thread ends, no request is made after it',
+               'an update_listeners task is three atomic regions: lock + read of the polled config; evaluation of '
                '`new_config + self._custom`; the listener storing it. The update lock makes the triple exclusive '
                '(extracted: applyLocked)',
                'a poll that dies of a BaseException that is not an Exception (KeyboardInterrupt, SystemExit) is outside '
@@ -85,6 +94,23 @@ def gen_timer(rng):
     for _ in range(rng.randint(0, 2)):
         rng.choice([s.fail, s.nochange, s.malformed, s.update, s.unknown])()
     return {'kind': 'timer', 'interval': rng.choice([0.01, '0.01', '0.02', 0.02]), 'script': s.ops}
+
+
+def gen_thread(rng):
+    """events for the real poll thread under a gated Event"""
+    s = svcref.Sched(rng)
+    n = rng.randint(3, 7)
+    for _ in range(n):
+        rng.choice([s.update, s.update, s.nochange, s.unknown, s.fail, s.fail, s.malformed])()
+    evs = [{'ev': 'tick', 'op': op} for op in s.ops]
+    if rng.random() < 0.25:
+        evs.insert(rng.randrange(len(evs) + 1), {'ev': 'tick', 'op': {
+            'op': 'pollFail', 'base': True, 'how': rng.choice(['interrupt', 'keyboard', 'systemexit'])}})
+    if rng.random() < 0.25:
+        evs.insert(rng.randrange(1, len(evs) + 1), {'ev': 'flush'})
+    if rng.random() < 0.3:
+        evs.insert(rng.randrange(max(len(evs) - 2, 1), len(evs) + 1), {'ev': 'stop'})
+    return {'kind': 'thread', 'interval': rng.choice([0.05, '0.05', 3, 10]), 'evs': evs}
 
 
 def race_case(rng):
@@ -171,6 +197,8 @@ def gen(rng, tier):
         k += 1
         if k % 10 == 0:
             yield gen_timer(rng)
+        elif k % 9 == 4:
+            yield gen_thread(rng)
         elif k % 50 == 7:
             yield race_case(rng)
         else:
@@ -184,6 +212,9 @@ def search(rng, tier):
         k += 1
         if k % 8 == 0:
             yield gen_timer(rng)
+            continue
+        if k % 8 == 3:
+            yield gen_thread(rng)
             continue
         if k % 4 == 1:
             yield race_case(rng)
@@ -259,6 +290,24 @@ def corpus():
                                                        {'op': 'pollFail', 'base': False, 'how': 'badstr'},
                                                        {'op': 'pollFail', 'base': False, 'how': 'keyerror'},
                                                        _upd('h1', 1, ('a.py', 1, 's1'))]},
+        # the poll thread: failures of every kind, an update, a BaseException ends it, later ticks do nothing
+        {'kind': 'thread', 'interval': 0.05, 'evs': [
+            {'ev': 'tick', 'op': {'op': 'pollFail', 'base': False, 'how': 'keyerror'}},
+            {'ev': 'tick', 'op': {'op': 'pollFail', 'base': False, 'how': 'garbage'}},
+            {'ev': 'tick', 'op': _upd('h1', 1, ('a.py', 1, 's1'))},
+            {'ev': 'tick', 'op': {'op': 'poll', 'nc': False, 'rt': 7, 'ts': 2, 'hash': 'u', 'tps': []}},
+            {'ev': 'tick', 'op': {'op': 'pollFail', 'base': True, 'how': 'systemexit'}},
+            {'ev': 'tick', 'op': _upd('h2', 3, ('a.py', 2, 's2'))}]},
+        # the shutdown window: flush closes the task handler, the next UPDATE is stored but its task is refused
+        {'kind': 'thread', 'interval': '0.05', 'evs': [
+            {'ev': 'tick', 'op': _upd('h1', 1, ('a.py', 1, 's1'))}, {'ev': 'flush'},
+            {'ev': 'tick', 'op': {'op': 'poll', 'nc': True, 'rt': 0, 'ts': 2, 'hash': '', 'tps': []}},
+            {'ev': 'tick', 'op': _upd('h2', 3, ('a.py', 2, 's2'))},
+            {'ev': 'tick', 'op': _upd('h3', 4, ('a.py', 3, 's3'))}, {'ev': 'stop'}]},
+        # shutdown stops the polling
+        {'kind': 'thread', 'interval': 3, 'evs': [
+            {'ev': 'tick', 'op': _upd('h1', 1, ('a.py', 1, 's1'))}, {'ev': 'stop'},
+            {'ev': 'tick', 'op': _upd('h2', 3, ('a.py', 2, 's2'))}, {'ev': 'stop'}]},
         # D23: text interval
         {'kind': 'timer', 'interval': '0.01', 'script': [{'op': 'pollFail', 'base': False, 'how': 'rpc'},
                                                          _upd('h1', 1, ('a.py', 1, 's1'))]},
@@ -324,6 +373,8 @@ def run_impl(case):
         return run_timer(case)
     if case['kind'] == 'preempt':
         return svcbench.run_preempt(case)
+    if case['kind'] == 'thread':
+        return svcbench.run_thread(case)
     return svcbench.run_ops(case['ops'])
 
 
@@ -399,7 +450,72 @@ def oracle_timer(case, obs):
     return v
 
 
+def _is_base(ev):
+    return ev['ev'] == 'tick' and ev['op']['op'] == 'pollFail' and bool(ev['op'].get('base'))
+
+
+def oracle_thread(case, obs):
+    """the statement on the real poll thread: while the agent is running (its task handler accepts work, shutdown was
+    not called, no BaseException was thrown into the poll), every tick issues a poll that reports the hash of the last
+    configuration received; whatever the outcome, the thread is still polling afterwards and the stored configuration is
+    the last good one."""
+    v = []
+    if obs.get('skipped') or obs.get('bench_error'):
+        return v
+    ref = svcref.Reference()
+    running = True
+    stopped = False
+    issued = 0
+    for n, (ev, t) in enumerate(zip(case['evs'], obs['trace'])):
+        what = f'event {n} ({ev["ev"]}{" " + ev["op"]["op"] if ev["ev"] == "tick" else ""})'
+        if 'raised' in t:
+            v.append(f'{what}: raised {t["raised"]}')
+        if ev['ev'] == 'stop' or stopped:
+            # LongPoll.shutdown() ("Shutdown the timer"): the thread ends without another poll and stays silent
+            if t['alive']:
+                v.append(f'{what}: LongPoll.shutdown() was called and the poll thread is still running')
+            if t['issued'] != issued:
+                v.append(f'{what}: {t["issued"] - issued} poll request(s) made during/after LongPoll.shutdown()')
+            stopped = True
+        if ev['ev'] != 'tick':
+            running = False           # flush / shutdown: the agent is going down, the statement is silent from here
+            issued = t['issued']
+            continue
+        if not running:
+            issued = t['issued']
+            continue
+        op = ev['op']
+        sent = svcref.norm_hash(ref.latest_hash)
+        if t['issued'] != issued + 1:
+            v.append(f'{what}: the poll thread made {t["issued"] - issued} request(s) in this pass of its loop, expected 1')
+        elif svcref.norm_hash(t['sent'][-1]) != sent:
+            v.append(f'{what}: the poll reported hash {t["sent"][-1]!r}; the last configuration received has {sent!r}')
+        issued = t['issued']
+        ref.apply(op)
+        if svcref.norm_hash(t['hash']) != svcref.norm_hash(ref.latest_hash):
+            v.append(f'after {what}: current hash {t["hash"]!r}, the last configuration received has '
+                     f'{ref.latest_hash!r}')
+        if sorted(t['polled']) != sorted(ref.latest):
+            v.append(f'after {what}: configuration held {sorted(t["polled"])}, the last good one is {sorted(ref.latest)}')
+        if _is_base(ev):
+            running = False           # not a "failed poll": the loop is not expected to survive it
+            continue
+        if not t['alive']:
+            v.append(f'{what}: polling stopped — the poll thread died ({t.get("died")}) of an outcome it must survive')
+            running = False
+        if len(v) >= 4:
+            break
+    iv = obs.get('interval')
+    for x in obs.get('timeouts', []):
+        if not (isinstance(x, (int, float)) and 0 < x <= iv + 1e-9):
+            v.append(f'the timer waited with timeout {x!r}; interval is {iv!r}')
+            break
+    return v
+
+
 def oracle(case, obs):
+    if case['kind'] == 'thread':
+        return oracle_thread(case, obs)
     if case['kind'] == 'preempt':
         return svcref.preempt_oracle(case, obs)
     return oracle_timer(case, obs) if case['kind'] == 'timer' else oracle_seq(case, obs)
@@ -415,7 +531,54 @@ def timer_model_ops(case):
     return ops
 
 
+def thread_model_evs(case):
+    out = []
+    for ev in case['evs']:
+        if ev['ev'] != 'tick':
+            out.append({'ev': ev['ev']})
+            continue
+        op = ev['op']
+        d = svcref.driver_ops([op])[0]
+        if op['op'] == 'poll':
+            out.append({'ev': 'tick', 'out': 'answer', 'rt': d['rt'], 'ts': d['ts'], 'hash': d['hash'], 'tps': d['tps']})
+        elif op.get('how') in ('garbage', 'bad_update'):
+            out.append({'ev': 'tick', 'out': 'garbage', 'tps': []})
+        else:
+            out.append({'ev': 'tick', 'out': 'raises', 'base': bool(op.get('base')), 'tps': []})
+    return out
+
+
+def compare_thread(case, obs, resp):
+    if 'error' in resp:
+        return ['model error: ' + resp['error']]
+    if obs.get('skipped'):
+        return []
+    if obs.get('bench_error'):
+        return ['the bench could not run the case on this implementation: ' + obs['bench_error']]
+    d = []
+    if len(resp['trace']) != len(obs['trace']):
+        return [f'trace length: model {len(resp["trace"])} vs implementation {len(obs["trace"])}']
+    for n, (ev, m, i) in enumerate(zip(case['evs'], resp['trace'], obs['trace'])):
+        what = f'event {n} {ev["ev"]}'
+        for key in ('alive', 'issued', 'queued', 'died'):
+            if m[key] != i[key]:
+                d.append(f'{what}: {key} model {m[key]!r} vs implementation {i[key]!r}')
+        if i.get('handler_open') is not None and m['handler_open'] != i['handler_open']:
+            d.append(f'{what}: task handler open model {m["handler_open"]} vs implementation {i["handler_open"]}')
+        if [svcref.norm_hash(x) for x in m['sent']] != [svcref.norm_hash(x) for x in i['sent']]:
+            d.append(f'{what}: hashes sent model {m["sent"]} vs implementation {i["sent"]}')
+        if svcref.norm_hash(m['hash']) != svcref.norm_hash(i['hash']):
+            d.append(f'{what}: hash model {m["hash"]!r} vs implementation {i["hash"]!r}')
+        if sorted(m['polled']) != sorted(i['polled']):
+            d.append(f'{what}: polled model {sorted(m["polled"])} vs implementation {sorted(i["polled"])}')
+        if len(d) >= 4:
+            break
+    return d
+
+
 def model_request(case, obs):
+    if case['kind'] == 'thread':
+        return {'evs': thread_model_evs(case)}
     if case['kind'] == 'preempt':
         return None          # the model has no regions inside update_new_config / add_custom / remove_custom
     if case['kind'] == 'timer':
@@ -424,6 +587,8 @@ def model_request(case, obs):
 
 
 def compare(case, obs, resp):
+    if case['kind'] == 'thread':
+        return compare_thread(case, obs, resp)
     if case['kind'] == 'seq':
         return svcref.compare_traces(case['ops'], obs, resp)
     if 'error' in resp:
@@ -470,6 +635,17 @@ def label(case, obs):
                                         'parked' if obs.get('reached') else 'beyond-last-line')
     if case['kind'] == 'timer':
         return 'timer/' + ('text' if isinstance(case['interval'], str) else 'number')
+    if case['kind'] == 'thread':
+        parts = ['thread']
+        if any(_is_base(e) for e in case['evs']):
+            parts.append('base-exception')
+        if any(e['ev'] == 'flush' for e in case['evs']):
+            parts.append('flush')
+        if any(e['ev'] == 'stop' for e in case['evs']):
+            parts.append('stop')
+        tr = obs.get('trace') or [{}]
+        parts.append('alive' if tr[-1].get('alive') else 'ended')
+        return '/'.join(parts)
     ks = [o['op'] for o in case['ops']]
     t = obs['trace']
     parts = (['degraded'] if obs.get('degraded') else []) + ['reordered' if _reordered(case) else 'in-order']
@@ -488,11 +664,19 @@ def nontrivial(case, obs):
         return bool(obs.get('reached'))
     if case['kind'] == 'timer':
         return True
+    if case['kind'] == 'thread':
+        return len(obs.get('trace') or []) > 0 and not obs.get('skipped')
     return _reordered(case) or _fail_after_good(case)
 
 
 def shrink(case):
     if case['kind'] == 'preempt':
+        return
+    if case['kind'] == 'thread':
+        evs = case['evs']
+        for i in range(len(evs)):
+            if len(evs) > 1:
+                yield {'kind': 'thread', 'interval': case['interval'], 'evs': evs[:i] + evs[i + 1:]}
         return
     if case['kind'] == 'timer':
         sc = case['script']
